@@ -172,6 +172,13 @@ type Env struct {
 	// loop is then provably running). Attempts counts every dial attempt.
 	DialGate func(gen int)
 	Attempts atomic.Int64
+	// ReDials counts the successful dials other than the first one of each Open cycle: the
+	// harness's own count of re-establishments (every re-dial follows an involuntary end of the
+	// previous generation, whether the harness injected it or the library decided it — e.g. a
+	// SECS-I send that ran out of retries under load). cycleFresh is set by Open/OpenBackground.
+	ReDials    atomic.Int64
+	cycleFresh atomic.Bool
+	closing    atomic.Bool // set around Close: a dial that starts then is refused and counted by nobody
 	// handler events
 	HandlerCalls atomic.Int64
 	AsyncErrs    atomic.Int64 // async error-handler callbacks (data and control)
@@ -227,6 +234,12 @@ func NewEnv(o Options) (*Env, error) {
 			if err := e.DialErr(n); err != nil {
 				return nil, err
 			}
+		}
+		if e.closing.Load() {
+			return nil, errors.New("genx: connection is being closed")
+		}
+		if !e.cycleFresh.CompareAndSwap(true, false) {
+			e.ReDials.Add(1)
 		}
 		a, b := net.Pipe()
 		p := &Peer{Gen: n, Conn: b, env: e, EOF: make(chan struct{}), closed: make(chan struct{}), resume: make(chan struct{}, 1)}
@@ -591,6 +604,7 @@ func (p *Peer) PrimaryUncounted(n uint32) error {
 
 // OpenBackground opens without waiting for Selected.
 func (e *Env) OpenBackground() error {
+	e.cycleFresh.Store(true)
 	return e.Conn.Open(context.Background(), hsms.OpenBackground)
 }
 
@@ -730,7 +744,15 @@ func (p *Peer) readLoop() {
 func (e *Env) Open(d time.Duration) error {
 	ctx, cancel := context.WithTimeout(context.Background(), d)
 	defer cancel()
+	e.cycleFresh.Store(true)
 	return e.Conn.Open(ctx, hsms.OpenWaitSelected)
+}
+
+// Close closes the connection under test; dials that start while it runs are refused.
+func (e *Env) Close() error {
+	e.closing.Store(true)
+	defer e.closing.Store(false)
+	return e.Conn.Close()
 }
 
 // WaitSelected waits until generation g (or a later one) is dialled and the connection reports Selected.
